@@ -202,9 +202,10 @@ func doDate(w sink, l layout, id int64) {
 func emitDate(w sink, l layout, id int64, cn string) {
 	back, err := snowflake.FromChStyle(cn)
 	back2, err2 := snowflake.FromChStyle(cn)
+	cn2 := snowflake.CnStyle(id) // asked again (for kept strings: after all the others were rendered)
 	abs := id>>l.tshift() + l.epoch
 	w.Emit(tr.E{"ev": "date", "id": limbs(id), "cn": tr.Str(cn), "back": limbs(back), "err": err != nil,
-		"back2": limbs(back2), "err2": err2 != nil, "nsovf": abs > nsEnd})
+		"back2": limbs(back2), "err2": err2 != nil, "cn2": tr.Str(cn2), "nsovf": abs > nsEnd})
 }
 
 // doDatesRetained: the strings CnStyle returned are kept AS RETURNED while all the other ids are
